@@ -26,7 +26,7 @@ unspecified). Oracle: untouched well-formed pieces before the fault are answered
 the first malformed piece gets no reply, handle() returns Err and nothing is written afterwards; mutated but \
 well-formed pieces get at most one well-shaped final reply or a close; no panic, no abort. Through listen(): a \
 healthy connection issues tagged calls before, during and after each faulty connection and a fresh connection \
-afterwards; all are answered; the faulty connection is closed by the service; no worker panics. Non-trivial: the \
+afterwards; all are answered; the faulty connection is closed by the service; no worker panics. After the fault the peer's own writes must be refused (the connection is closed, not just silent). Non-trivial: the \
 mutated stream contains a piece classified malformed; distinct by (operator, message kind, position class, \
 malformed reason, stream).";
 
